@@ -26,14 +26,19 @@ func hPrintFile(maxText int) hFilePrint {
 	tables := sourcemap.GenerateLineOffsetTables("ab\ncd", 0)
 	b := sourcemap.MakeChunkBuilder(nil, tables, false)
 	var f hFilePrint
-	// the printer always emits a mapping for the start of the file
-	f.mapAt = append(f.mapAt, 0)
-	f.origLoc = append(f.origLoc, 0)
-	b.AddSourceMapping(logger.Loc{Start: 0}, "", f.text)
+	// the printer normally emits a mapping for the start of the file; with an
+	// input source map that leaves the first lines unmapped (a banner comment)
+	// the first mapping comes later, possibly after line breaks
+	first := vBool()
+	if first {
+		f.mapAt = append(f.mapAt, 0)
+		f.origLoc = append(f.origLoc, 0)
+		b.AddSourceMapping(logger.Loc{Start: 0}, "", f.text)
+	}
 	seg := hBytes(hLen(0, maxText))
 	vAssume(sourcemap.VWholeChars(seg))
 	f.text = append(f.text, seg...)
-	if vBool() {
+	if !first || vBool() {
 		loc := 1 + vChoose(4)
 		f.mapAt = append(f.mapAt, len(f.text))
 		f.origLoc = append(f.origLoc, loc)
